@@ -3,7 +3,10 @@ package main
 import (
 	"bufio"
 	"bytes"
+	"connectrpc.com/vanguard"
 	"encoding/json"
+	"fmt"
+	"net/http"
 )
 
 // collect runs a suite with a given seed and returns the emitted cases
@@ -56,6 +59,37 @@ func init() {
 			for i := range runs[0] {
 				c.emit(Case{Suite: "dual.meta", In: L{B(sub.name), int64(i)}, Out: L{runs[0][i].Out, runs[1][i].Out, runs[2][i].Out}, Tags: []string{"dual:" + sub.name}})
 			}
+		}
+	}
+}
+
+func init() {
+	// C20: the fallback resolver and what registration makes of a resolver's answer
+	suites["resolver"] = func(c *ctx) {
+		r := c.r
+		for i := 0; i < c.n; i++ {
+			n := r.intn(5)
+			outs := make([][4]int, n)
+			in := L{}
+			for k := range outs {
+				row := L{}
+				for m := 0; m < 4; m++ {
+					outs[k][m] = pick(r, []int{0, 1, 1, 2})
+					row = append(row, int64(outs[k][m]))
+				}
+				in = append(in, row)
+			}
+			method := r.intn(4)
+			found, ek, ei := vanguard.VerifFallbackResolve(outs, method)
+			c.emit(Case{Suite: "resolver.fallback", In: L{in, int64(method)}, Out: L{int64(found), int64(ek), int64(ei)},
+				Tags: []string{fmt.Sprintf("resolver.n:%d", n), fmt.Sprintf("resolver.method:%d", method)}})
+		}
+		// registration with a resolver that does not know, or fails on, the method's types
+		for i := 0; i < c.n/10+4; i++ {
+			o := pick(r, []int{0, 1, 2})
+			svc := vanguard.NewService(libraryService, http.NotFoundHandler(), vanguard.WithTypeResolver(vanguard.VerifNewFakeResolver([4]int{o, 1, 1, 1})))
+			_, err := vanguard.NewTranscoder([]*vanguard.Service{svc})
+			c.emit(Case{Suite: "resolver.register", In: L{int64(o)}, Out: L{err == nil}, Tags: []string{fmt.Sprintf("resolver.register:%d", o)}})
 		}
 	}
 }
